@@ -272,6 +272,9 @@ Section WithDigest.
                         (forall f, lookup p (w_fs w) = Some f -> snd hi = H (fst hi) (f_bytes f))
     | QGet local p info | QHashFile local p _ info => local = true -> info_current (w_fs w) p info
     | QGetMany local _ infos | QGetHashes local _ _ infos => local = true -> infos_current (w_fs w) infos
+    | QGetHashesW local ps alg infos wp _ t =>
+        (local = true -> infos_current (w_fs w) infos) /\
+        Fresh (with_db w (snd (get_hashes H (w_db w) local (the_fs w local) ps alg infos))) wp t
     | IBuild _ | IMd5 _ _ | IUpdate _ => True
     end.
 
@@ -322,6 +325,8 @@ Section WithDigest.
     - intros Hb ->. now apply infos_current_b_sound.
     - intros Hb ->. now apply info_current_b_sound.
     - intros Hb ->. now apply infos_current_b_sound.
+    - intros Hb. apply andb_true_iff in Hb as [H1 H2]. split; [|now apply fresh_b_sound].
+      intros ->. now apply infos_current_b_sound.
   Qed.
 
   Lemma ticks_b_sound : forall h w, ticks_b H w h = true -> Ticks w h.
@@ -651,6 +656,9 @@ Section WithDigest.
     | OMany local l => forall p n v, In (p, Some (n, v)) l -> local = true /\ hashes_to (w_fs w) p n v
     | OHash local p alg v => forall x, v = Some x -> hashes_to (the_fs w local) p alg x
     | OHashes local alg l => forall p x, In (p, x) l -> hashes_to (the_fs w local) p alg x
+    | OHashesDuring local alg l wp =>
+        (* the file rewritten during the query may be described in either version; all the others are current *)
+        forall p x, In (p, x) l -> p <> wp -> hashes_to (the_fs w local) p alg x
     | OMd5 alg i =>
         IdxInv (w_fs w) i /\
         forall p e, In (p, e) i -> is_dir_entry e = false ->
@@ -666,6 +674,17 @@ Section WithDigest.
 
   Lemma get_slot_inv w s : Inv w -> IdxInv (w_fs w) (get_slot w s).
   Proof. intros [Hdb [Ha Hb]]. destruct s; assumption. Qed.
+
+  (* with walk-time tokens the rows a staging query records do not depend on what happens to the files
+     between the hashing and the save: a write during the query is a write after the query *)
+  Lemma during_walk_is_sequential db local fs ps alg infos wp fnew :
+    get_hashes_during H AtWalk db local fs ps alg infos wp fnew = get_hashes H db local fs ps alg infos.
+  Proof. reflexivity. Qed.
+
+  Lemma step_inquery_is_sequential w local ps alg infos wp b t :
+    fst (step H w (QGetHashesW local ps alg infos wp b t)) =
+    exec H w [QGetHashes local ps alg infos; Write wp b t].
+  Proof. reflexivity. Qed.
 
   Lemma step_inv w o : Inv w -> tick_ok w o ->
     Inv (fst (step H w o)) /\ out_ok (fst (step H w o)) (snd (step H w o)).
@@ -706,6 +725,19 @@ Section WithDigest.
       + apply with_db_inv; [assumption|]. destruct local; [now apply H1|rewrite H2 by reflexivity; exact (proj1 HI)].
       + destruct (fst (get_hashes H (w_db w) local (the_fs w local) ps alg infos)) as [k|l] eqn:E; [exact I|].
         cbn [out_ok]. destruct local; exact (proj2 (H3 l eq_refl)).
+    - (* QGetHashesW: the query with walk-time tokens, then the write *)
+      cbn [fst snd]. rewrite during_walk_is_sequential. destruct Ht as [Hc Hfr].
+      assert (Hpre : local = true -> DbInv (the_fs w local) (w_db w) /\ infos_current (the_fs w local) infos).
+      { intros ->. split; [exact (proj1 HI)|now apply Hc]. }
+      destruct (get_hashes_sound (w_db w) local (the_fs w local) ps alg infos Hpre) as [H1 [H2 H3]].
+      set (r := get_hashes H (w_db w) local (the_fs w local) ps alg infos) in *.
+      assert (HI1 : Inv (with_db w (snd r))).
+      { apply with_db_inv; [assumption|]. destruct local; [now apply H1|rewrite H2 by reflexivity; exact (proj1 HI)]. }
+      split; [exact (mutate_inv (with_db w (snd r)) wp t b HI1 Hfr)|].
+      destruct (fst r) as [k|l] eqn:E; [exact I|]. cbn [out_ok]. intros p x Hin Hne.
+      destruct (proj2 (H3 l eq_refl) p x Hin) as [f [Hf Hx]]. exists f. split; [|exact Hx].
+      destruct local; cbn [the_fs with_fs w_fs w_mem with_db] in *; [|exact Hf].
+      now rewrite lookup_set_other.
     - (* IBuild *) cbn [fst snd]. split.
       + apply with_slot_inv; [assumption|apply idx_build_inv].
       + cbn [out_ok]. destruct s; cbn; apply idx_build_inv.
@@ -747,6 +779,20 @@ Section WithDigest.
   Proof.
     intros h HT w o Hin. destruct (never_stale_from h empty_world Inv_empty HT) as [Hf _].
     rewrite Forall_forall in Hf. exact (Hf _ Hin).
+  Qed.
+
+  (* A write that strikes DURING a staging query (after the file was read for hashing, before the rows
+     are saved): because the saved row is keyed by the token observed at walk time, the resulting world
+     is the one of "query, then write"; the invariant holds in it and every later answer of every route,
+     along every continuation satisfying Ticks, is right - the in-query write can never produce a stale hit. *)
+  Theorem inquery_write_safe w local ps alg infos wp b t :
+    Inv w -> tick_ok w (QGetHashesW local ps alg infos wp b t) ->
+    let w' := fst (step H w (QGetHashesW local ps alg infos wp b t)) in
+    w' = exec H w [QGetHashes local ps alg infos; Write wp b t] /\ Inv w' /\
+    forall h, Ticks w' h -> Forall (fun wo => out_ok (fst wo) (snd wo)) (run H w' h).
+  Proof.
+    intros HI Ht w'. split; [reflexivity|]. destruct (step_inv w _ HI Ht) as [HI' _].
+    split; [exact HI'|]. intros h HT. exact (proj1 (never_stale_from h w' HI' HT)).
   Qed.
 
   (* the same for the executable form of the hypothesis *)
@@ -973,6 +1019,51 @@ Proof.
   - cbn [ex_touch_back run]. right. right. right. left. reflexivity.
   - intros Hok. vm_compute in Hok. destruct (Hok _ eq_refl) as [f [Hf Hx]].
     injection Hf as <-. discriminate.
+Qed.
+
+(* a write during a staging query: file 0 is rewritten (same length, same inode, new mtime) after it
+   was hashed and before the rows are saved; the row keeps the walk-time token, so the next lookup misses
+   and re-hashes *)
+Definition ex_inquery : list op :=
+  [ Create [0] [97] (T 10 100 1); Create [1] [120] (T 11 100 1);
+    QGetHashesW true [[0]; [1]] md5_name [([0], T 10 100 1); ([1], T 11 100 1)] [0] [98] (T 10 101 1);
+    QGet true [0] None; QGet true [1] None;
+    QHashFile true [0] md5_name None;
+    QGetMany true [[0]; [1]] [];
+    QGetHashes true [[0]; [1]] md5_name [([0], T 10 101 1); ([1], T 11 100 1)] ].
+
+Example ex_inquery_ok :
+  ticks_b toyH empty_world ex_inquery = true /\
+  nth 3 (outs ex_inquery) ONone = OGet true [0] None /\
+  nth 4 (outs ex_inquery) ONone = OGet true [1] (Some (md5_name, toyH md5_name [120])) /\
+  nth 5 (outs ex_inquery) ONone = OHash true [0] md5_name (Some (toyH md5_name [98])) /\
+  nth 6 (outs ex_inquery) ONone =
+    OMany true [([0], Some (md5_name, toyH md5_name [98])); ([1], Some (md5_name, toyH md5_name [120]))].
+Proof. vm_compute. repeat split. Qed.
+
+(* ... whereas keying the saved row by a stat taken at SAVE time pairs the old digest with the new token:
+   the table is unsound and the very next lookup is a stale hit.  (This is why _get_hashes must hand the
+   walk-time info to save_many.) *)
+Example ex_savetime_refuted :
+  let fs := [([0], {| f_tok := T 10 100 1; f_bytes := [97] |})] in
+  let fnew := {| f_tok := T 10 101 1; f_bytes := [98] |} in
+  let fs' := set [0] fnew fs in
+  let infos := [([0], T 10 100 1)] in
+  let db_save := snd (get_hashes_during toyH AtSave [] true fs [[0]] md5_name infos [0] fnew) in
+  let db_walk := snd (get_hashes_during toyH AtWalk [] true fs [[0]] md5_name infos [0] fnew) in
+  st_get db_save true fs' [0] None = Some (md5_name, toyH md5_name [97]) /\
+  ~ DbInv toyH fs' db_save /\
+  st_get db_walk true fs' [0] None = None /\
+  fst (hash_file toyH db_walk true fs' [0] md5_name None) = Some (toyH md5_name [98]).
+Proof.
+  cbn zeta. split; [vm_compute; reflexivity|]. split; [|split; vm_compute; reflexivity].
+  intros Hdb.
+  assert (Hin : In ([0], Row (R (Some 1) (T 10 101 1) 1 md5_name (toyH md5_name [97])))
+                   (snd (get_hashes_during toyH AtSave [] true [([0], {| f_tok := T 10 100 1; f_bytes := [97] |})]
+                           [[0]] md5_name [([0], T 10 100 1)] [0] {| f_tok := T 10 101 1; f_bytes := [98] |})))
+    by (vm_compute; left; reflexivity).
+  specialize (Hdb _ _ Hin {| f_tok := T 10 101 1; f_bytes := [98] |} md5_name (toyH md5_name [97]) eq_refl eq_refl).
+  discriminate.
 Qed.
 
 (* batches across the 999 boundary *)
